@@ -4,7 +4,8 @@
  *
  * STUB: pread64/pwrite64/lseek+read/write move bytes between the caller's buffer and vf_dev[]; a request beyond the device end is short
  * STUB: fallocate(ZERO_RANGE|PUNCH_HOLE) zeroes the range; fsync/ftruncate/close succeed; fstat reports the device size
- * Fault knobs (used only by the fault harnesses): the k-th pwrite64/write call fails with EIO.
+ * Fault knobs (used only by the fault harnesses): from the k-th pwrite64/write call on every write fails with EIO; or a bad sector
+ * (every write touching a byte range fails, all others succeed).
  */
 #include <errno.h>
 #include <sys/stat.h>
@@ -17,6 +18,8 @@ static long vf_dev_size;
 static long vf_pos;
 static int vf_closed, vf_fsyncs, vf_nwrites;
 static int vf_fail_write_at = -1;	/* every device write from this index on fails (pwrite and its lseek+write retry alike), -1: none */
+static long vf_bad_lo = -1, vf_bad_hi = -1;	/* bad sector: every write touching device bytes [lo, hi) fails with EIO (persistently), others succeed */
+static int vf_bad_hits;				/* number of device writes that failed on the bad sector */
 static int vf_write_seen_rdonly;	/* set if a write reaches a descriptor opened read-only */
 static int vf_rdonly;
 
@@ -56,6 +59,7 @@ static long vf_do_write(const void *buf, unsigned long n, long off)
 	const unsigned char *b = buf;
 	if (vf_rdonly) vf_write_seen_rdonly = 1;
 	if (vf_fail_write_at >= 0 && vf_nwrites++ >= vf_fail_write_at) { errno = EIO; return -1; }
+	if (vf_bad_lo >= 0 && off < vf_bad_hi && off + (long) n > vf_bad_lo) { vf_bad_hits++; errno = EIO; return -1; }
 	if (off < 0) { errno = EINVAL; return -1; }
 #ifdef VF_INRANGE
 	PROP(n <= MAXIO && off + (long) n <= vf_dev_size, "env: device request inside the device");
